@@ -1,1 +1,14 @@
-// linearizability checker (filled in later)
+#include "lin.h"
+#include <cstdio>
+namespace vh {
+std::string describe_history(const std::vector<Event>& h, const char* const* opnames, size_t max) {
+    std::string s; char b[160]; size_t n = 0;
+    for (auto& e : h) {
+        if (n++ >= max) { s += " ..."; break; }
+        const char* nm = "op"; if (opnames) { int k = 0; while (opnames[k]) ++k; if (e.kind >= 0 && e.kind < k) nm = opnames[e.kind]; }
+        snprintf(b, sizeof b, " [t%d %s(%ld,%ld)->%ld,%ld,%ld @%llu-%llu]", e.thread, nm, e.a, e.b, e.r, e.r2, e.r3, (unsigned long long)e.inv, (unsigned long long)e.ret);
+        s += b;
+    }
+    return s;
+}
+}
